@@ -21,6 +21,7 @@ from glotaran.typing.types import DatasetMappable
 
 if TYPE_CHECKING:
     from collections.abc import Generator
+    from collections.abc import Iterable
     from collections.abc import Iterator
 
     import pandas as pd
@@ -292,6 +293,30 @@ def safe_dataframe_replace(
         to_be_replaced_values = [to_be_replaced_values]
     if column_name in df.columns:
         df[column_name] = df[column_name].replace(to_be_replaced_values, replace_value)
+
+
+def text_column_dtypes(
+    column_names: Iterable[Any], text_columns: Sequence[str] = ("label",)
+) -> dict[Any, type]:
+    """Create the ``dtype`` mapping which makes pandas readers keep text columns as text.
+
+    Pandas readers infer the type of a column from all of its cells, thus a column which only
+    contains numeric looking labels (e.g. ``1.10`` or ``007``) would be read as numbers
+    (``1.1`` and ``7``) if it isn't explicitly read as text.
+
+    Parameters
+    ----------
+    column_names : Iterable[Any]
+        Names of the columns in the file (header).
+    text_columns : Sequence[str]
+        Lower case names of the columns which need to be read as text.
+
+    Returns
+    -------
+    dict[Any, type]
+        Mapping from the names of text columns (as written in the file) to ``str``.
+    """
+    return {name: str for name in column_names if str(name).strip().lower() in text_columns}
 
 
 def get_script_dir(*, nesting: int = 0) -> Path:
